@@ -24,7 +24,7 @@ class C13(Prop):
 
     def model_checks(self, tier):
         big = tier == "thorough"
-        c = {"Conn": {"c1", "c2"}, "CursUsed": {1}, "Devs": set(), "Depth": 16 if big else 12, "MaxFails": 99}
+        c = {"Conn": {"c1", "c2"}, "CursUsed": {1}, "Devs": set(), "Depth": 16 if big else 12, "MaxFails": 99, "SampleOneIn": 1}
         return [
             dict(name="mc_ideal", consts=c, invariants=["StepInv"], constraint="Bound", view="ViewSt", timeout=1500),
             dict(name="mc_snapshot", consts=dict(c, Devs={"C13.reader_transaction_snapshot"}, Depth=6),
@@ -33,12 +33,12 @@ class C13(Prop):
 
     def generations(self, tier, seed):
         big = tier == "thorough"
-        base = {"Conn": {"c1", "c2"}, "CursUsed": {1, 2}, "Devs": set(), "MaxFails": 2}
+        base = {"Conn": {"c1", "c2"}, "CursUsed": {1, 2}, "Devs": set(), "MaxFails": 2, "SampleOneIn": 1}
         return [
-            dict(name="edges", mode="edges", sample=30000 if big else 3000, consts=dict(base, CursUsed={1}, MaxFails=99, Depth=9)),
-            dict(name="paths", mode="paths", sample=20000 if big else 3000, consts=dict(base, CursUsed={1}, MaxFails=1, Depth=5)),
+            dict(name="edges", mode="edges", sample=30000 if big else 3000, consts=dict(base, CursUsed={1}, MaxFails=99, SampleOneIn=1, Depth=9)),
+            dict(name="paths", mode="paths", sample=20000 if big else 3000, consts=dict(base, CursUsed={1}, MaxFails=1, SampleOneIn=1, Depth=5)),
             dict(name="walks", mode="walks", depth=14, num=5000 if big else 800, consts=dict(base, Depth=14)),
-        ] + ([dict(name="walks_long", mode="walks", depth=40, num=1500, seed_offset=2, consts=dict(base, MaxFails=5, Depth=40))] if big else [])
+        ] + ([dict(name="walks_long", mode="walks", depth=40, num=1500, seed_offset=2, consts=dict(base, MaxFails=5, SampleOneIn=1, Depth=40))] if big else [])
 
     def nontrivial(self, ops):
         return any(o["k"] == "begin" for o in ops) and len({o["c"] for o in ops}) == 2
